@@ -15,10 +15,10 @@ from . import core, ENGINE_VERSION
 
 ENGINES = {"C05": "xsim.hkl", "C06": "xsim.hkl", "C19": "xsim.c19", "C20": "xsim.c20"}
 DEFAULT_RUNS = {
-    "C05": {"quick": 1500, "thorough": 120000},
-    "C06": {"quick": 1500, "thorough": 120000},
-    "C19": {"quick": 20000, "thorough": 2000000},
-    "C20": {"quick": 12000, "thorough": 1200000},
+    "C05": {"quick": 4000, "thorough": 300000},
+    "C06": {"quick": 4000, "thorough": 300000},
+    "C19": {"quick": 60000, "thorough": 3000000},
+    "C20": {"quick": 30000, "thorough": 1500000},
 }
 CHUNK_WALL_LIMIT = 900      # seconds, watchdog per chunk (harness error, never exit 0)
 
